@@ -429,6 +429,10 @@ func genC10(seed uint64, tier string, idx int) *Plan {
 			{K: "dial", After: &Dep{Actor: "settle", N: len(settle.Ops)}}, {K: "send", Data: f.Raw, End: true, Frame: 1}, {K: "quiet"}}})
 		p.Expect.Extra["fresh_same"] = int64(ci)
 	}
+	if g.r.chance(8) {
+		p.AcceptFail = 1 + g.r.intn(2) // the listener reports a transient error (too many open files) once or twice
+		p.Faults = append(p.Faults, "net.accept_error")
+	}
 	p.Sched = g.sched()
 	p.MaxStep = 200000
 	return p
